@@ -109,6 +109,33 @@ def by_output(reg, c, result='bytes'):
     reg.models[c.target] = model
 
 
+def ctor_at_call_sites(reg, c, field_types):
+    """call-site use of the contract of a REAL __init__ (frame `self.*` under proof): the object under construction has no
+    fields yet, so at call sites the fields are created with their declared types (a clone whose modifies is the typed
+    field list) before the postconditions are assumed.  The contract under proof is `c` itself."""
+    import copy
+    reg.add(c)
+    c2 = copy.copy(c)
+    c2.target = c.target + '#call'
+    c2.params = dict({'self': 'any'}, **c.params)
+    c2.modifies = {'self.' + f: t for f, t in field_types.items()}
+    reg.contracts[c2.target] = c2
+
+    def model(E, st, args, kwargs):
+        from vf.pyvc import loader
+        from vf.pyvc.interp import FuncV
+        fi = loader.find_function(c.target)
+        outs = []
+        for b in E.bind_params(FuncV(fi), args, kwargs, st):
+            if b[0] == 'raise':
+                outs.append(b)
+                continue
+            _, s1, env = b
+            outs.extend(apply_contract(E, c2, s1, [env[n] for n in c2.params], {}))
+        return outs
+    reg.models[c.target] = model
+
+
 def _ctr_limit_expr(bs, cl):
     """bs * 256**cl for cl in 1..15 as a nested ite (exact, linear for the solver); -1 = no limit below 2**128 bytes"""
     e = '-1'
